@@ -4,7 +4,7 @@
     qcelemental/models/results.py, procedures.py, basis.py on every run). *)
 From Coq Require Import ZArith List String Bool.
 Require Import QV.Common.Outcome QV.Gen.KeepLists QV.Model.Results QV.Model.Basis QV.Proofs.Results QV.Proofs.Basis
-  QV.Proofs.ResultsValidate.
+  QV.Proofs.ResultsValidate QV.Proofs.ResultsCompose.
 Import ListNotations.
 Local Open Scope string_scope.
 Local Open Scope list_scope.
@@ -177,6 +177,24 @@ Qed.
 Theorem C20_wfn_validation_idempotent : forall w w', wfn_validate w = Ok w' -> wfn_validate w' = Ok w'.
 Proof. exact wfn_validate_idempotent. Qed.
 
+(** The whole `wavefunction` field (protocol filter, then WavefunctionProperties validation): the accepted
+    result fed back through the same protocol is accepted and returned UNCHANGED — by a simulation
+    argument: validation only reshapes arrays, which the filter cannot see, so the filter maps the
+    validated dictionary to itself, and validation is idempotent. *)
+Theorem C20_wfn_stage_idempotent : forall p w w',
+  wfn_stage (Some p) (Some w) = Ok (Some w') -> wfn_stage (Some p) (Some w') = Ok (Some w').
+Proof. exact wfn_stage_idempotent. Qed.
+
+(** Re-validating an accepted AtomicResult (wavefunction, return_result, stdout, native_files fed back
+    under the same protocols and driver) returns the same object, for every input — provided
+    native_files was supplied, or was absent under a policy that maps {} to {} (all, none). The excluded
+    case (absent under `input`) is the refuted statement at the end of this file. *)
+Theorem C20_atomic_revalidation : forall i o,
+  atomic_result i = Ok o ->
+  (a_native i <> None \/ native_protocol (native_policy i) [] = Ok []) ->
+  atomic_result (refeed i o) = Ok o.
+Proof. exact atomic_revalidation. Qed.
+
 (** Basis sets: the function count is the sum over the atoms of the sum over the center's shells of
     2L+1 (spherical) / (L+1)(L+2)/2 (cartesian) over all angular momenta of the shell (fused shells) —
     general contractions add nothing —, and a well-formed basis set is accepted iff the supplied nbf is
@@ -208,9 +226,6 @@ Proof. exact basis_revalidate. Qed.
     and no native_files supplied the object holds {} (the validator does not run on the default), but
     its dict() passes {} explicitly and the second validation turns it into {'input': None} (known
     finding C20-native-input-default-not-idempotent). *)
-Definition refeed (i : ar_in) (o : ar_out) : ar_in :=
-  {| a_driver := a_driver i; a_pw := a_pw i; a_pstdout := a_pstdout i; a_pnative := a_pnative i;
-     a_wfn := o_wfn o; a_rr := o_rr o; a_stdout := o_stdout o; a_native := Some (o_native o) |}.
 Definition native_witness : ar_in :=
   {| a_driver := "energy"; a_pw := None; a_pstdout := None; a_pnative := Some "input"; a_wfn := None;
      a_rr := RFloat 5; a_stdout := Some "I ran."; a_native := None |}.
@@ -273,6 +288,8 @@ Print Assumptions C20_property_arrays.
 Print Assumptions C20_declared_shapes_enforced.
 Print Assumptions C20_declared_shapes_enforced_refuted.
 Print Assumptions C20_wfn_validation_idempotent.
+Print Assumptions C20_wfn_stage_idempotent.
+Print Assumptions C20_atomic_revalidation.
 Print Assumptions C20_nbf_spec.
 Print Assumptions C20_nbf_count_formulas.
 Print Assumptions C20_basis_revalidation.
